@@ -9,7 +9,7 @@ package model
 //@ spec signed(a AlternativeWithCriteria, c Criterion) real = a.Criteria[c.Id] * mult(c)
 
 //@ func (*Criterion).Multiplier
-//@   property C03 C11 C12 C13 C14 C19 C07 C09 C15 C20 C01 C04 C05 C06 C16
+//@   property C03 C11 C12 C13 C14 C19 C07 C09 C15 C20 C01 C04 C05 C06 C16 C18
 //@   nopanic
 //@   ensures [mult] real(result) == mult(*c)
 //@   ensures [pm1] result == 1 || result == -1
@@ -20,7 +20,7 @@ package model
 //@   ensures [raw] result == a.Criteria[criterion.Id]
 
 //@ func (*AlternativeWithCriteria).CriterionValue
-//@   property C03 C11 C12 C13 C01 C04 C09 C14 C16 C05 C06 C19 C20
+//@   property C03 C11 C12 C13 C01 C04 C09 C14 C16 C05 C06 C19 C20 C07 C15 C18
 //@   panics_iff [missing] !(criterion.Id in a.Criteria)
 //@   ensures [signed] result == signed(*a, *criterion)
 
@@ -558,16 +558,16 @@ package model
 //@ spec round8(v real) real = round(v * 100000000.0) / 100000000.0
 
 //@ func ValueAlternativeResult
-//@   property C03 C04 C01 C09 C14 C16 C20
+//@   property C03 C04 C01 C09 C14 C16 C20 C07 C15 C18
 //@   ensures [single_value] fresh(result) && result.Alternative == *alternative && typeis(result.Evaluation, EvaluationSingleValue) && val(*result) == value
 
 //@ func (*AlternativeResult).Value
-//@   property C03 C04 C01 C09 C14 C16
+//@   property C03 C04 C01 C09 C14 C16 C07 C15 C18
 //@   panics_iff [not_single_value] !typeis(a.Evaluation, EvaluationSingleValue)
 //@   ensures [value] result == val(*a)
 
 //@ func (*AlternativeResult).rounded
-//@   property C03 C04 C01 C09 C14 C16
+//@   property C03 C04 C01 C09 C14 C16 C07 C15 C18
 //@   panics_iff [not_single_value] !typeis(a.Evaluation, EvaluationSingleValue)
 //@   ensures [rounded] fresh(result) && result.Alternative == a.Alternative && typeis(result.Evaluation, EvaluationSingleValue) && val(*result) == round8(val(*a))
 
@@ -582,7 +582,7 @@ package model
 //@   opaque
 
 //@ func (*AlternativeResult).positionInRanking
-//@   property C01 C04 C03 C09 C14 C16
+//@   property C01 C04 C03 C09 C14 C16 C07 C15 C18
 //@   requires [single] typeis(a.Evaluation, EvaluationSingleValue) && forall j int :: 0 <= j && j < len(*allAlternatives) ==> typeis((*allAlternatives)[j].Evaluation, EvaluationSingleValue)
 //@   requires [sorted] forall i int, j int :: 0 <= i && i < j && j < len(*allAlternatives) ==> val((*allAlternatives)[i]) >= val((*allAlternatives)[j])
 //@   requires [distinct] forall i int, j int :: 0 <= i && i < j && j < len(*allAlternatives) ==> (*allAlternatives)[i].Alternative.Id != (*allAlternatives)[j].Alternative.Id
@@ -613,7 +613,7 @@ package model
 //@   opaque
 
 //@ func (*AlternativeResults).Ranking
-//@   property C01 C04 C03 C09 C14 C16
+//@   property C01 C04 C03 C09 C14 C16 C07 C15 C18
 //@   requires [single] forall j int :: 0 <= j && j < len(*a) ==> typeis((*a)[j].Evaluation, EvaluationSingleValue)
 //@   requires [distinct] forall i int, j int :: 0 <= i && i < j && j < len(*a) ==> (*a)[i].Alternative.Id != (*a)[j].Alternative.Id
 //@   ensures [one_entry_each] fresh(result) && fresh(*result) && len(*result) == len(*a)
@@ -666,7 +666,7 @@ package model
 //@   ensures [schema_of_the_weights_parameter] typeis(result, WeightType)
 
 //@ func Rank
-//@   property C01 C03 C04
+//@   property C01 C03 C04 C07 C15 C18
 //@   fnparam pref pure
 //@   fnparam pref ensures result != nil && typeis(result.Evaluation, EvaluationSingleValue) && result.Alternative == *arg0
 //@   requires [distinct] forall i int, j int :: 0 <= i && i < j && j < len(dmp.ConsideredAlternatives) ==> dmp.ConsideredAlternatives[i].Id != dmp.ConsideredAlternatives[j].Id
@@ -696,7 +696,10 @@ package model
 //@   ensures [input_untouched] unchanged(*alternatives)
 
 //@ pred distinctAltIds(a []AlternativeWithCriteria) = forall i int, j int :: 0 <= i && i < j && j < len(a) ==> a[i].Id != a[j].Id
+// isShuffle(r, a, g, n): r is the shuffle of a drawn from generator g starting at its n-th value (a relation, assumed of every call)
+//@ spec isShuffle(r *[]AlternativeWithCriteria, a *[]AlternativeWithCriteria, g func() float64, n int) bool
 //@ func ShuffleAlternatives
+//@   assumes [the_shuffle_drawn_from_that_generator] isShuffle(result, alternatives, generator, old(calls(generator)))
 //@   property C09 C01 C03 C04 C14 C16 C11 C12 C13
 //@   fnparam generator ensures 0.0 <= result && result < 1.0
 //@   ensures [fresh_permutation] fresh(result) && fresh(*result) && len(*result) == len(*alternatives)
